@@ -4,6 +4,9 @@
    and is not modelled.  Definitions only. *)
 From EG Require Import Base.Prelude Model.Geometry Model.Style Model.Circle.
 
+(* core/src/primitives/rectangle/mod.rs:58-62 Dimensions::bounding_box returns *self *)
+Definition rect_bbox (r : rect) : rect := r.
+
 (* primitive_style.rs:119-139 with P = Rectangle *)
 Definition rect_stroke_area (r : rect) (st : style) : rect := offset r (stroke_area_offset st).
 Definition rect_fill_area (r : rect) (st : style) : rect := offset r (fill_area_offset st).
